@@ -160,6 +160,93 @@ Definition run_parse_paths (a : list Z) : list Z :=
   | [] => [-1]
   end.
 
+(* concrete paths.  comp = tag id ini lead (tag 0 ".", 1 "..", 2 name);  comps = n {comp};  path = abs comps *)
+Definition dec_comp (t i e l : Z) : comp := if t =? 0 then CDot else if t =? 1 then CUp else CName i (zb e) l.
+Definition enc_comp (c : comp) : list Z :=
+  match c with CDot => [0; 0; 0; 0] | CUp => [1; 0; 0; 0] | CName i e l => [2; i; bz e; l] end.
+Definition enc_comps (l : list comp) : list Z := Z.of_nat (List.length l) :: concat (map enc_comp l).
+
+Fixpoint dec_comps_n (n : nat) (l : list Z) : list comp * list Z :=
+  match n with
+  | O => ([], l)
+  | S n' =>
+      match l with
+      | t :: i :: e :: ld :: r => let (cs, rest) := dec_comps_n n' r in (dec_comp t i e ld :: cs, rest)
+      | _ => ([], [])
+      end
+  end.
+Definition dec_comps (l : list Z) : list comp * list Z :=
+  match l with n :: r => dec_comps_n (Z.to_nat n) r | [] => ([], []) end.
+
+Fixpoint dec_paths (n : nat) (l : list Z) : list pathstr * list Z :=
+  match n with
+  | O => ([], l)
+  | S n' =>
+      match l with
+      | ab :: r => let (cs, r1) := dec_comps r in let (ps, r2) := dec_paths n' r1 in (mkPath (zb ab) cs :: ps, r2)
+      | [] => ([], [])
+      end
+  end.
+
+Fixpoint dec_wfiles (n : nat) (l : list Z) : list (list comp * ini) * list Z :=
+  match n with
+  | O => ([], l)
+  | S n' =>
+      let (f, r1) := dec_comps l in
+      let (c, r2) := dec_ini r1 in
+      let (xs, r3) := dec_wfiles n' r2 in
+      ((f, c) :: xs, r3)
+  end.
+
+Definition dec_main_c (a : list Z) : option (main_params * world * list comp * cliargs_c) :=
+  match a with
+  | hd :: dv :: pr :: im :: u :: stg :: sv :: mtg :: mv :: hc :: cv :: r =>
+      let (bdir, r1) := dec_comps r in
+      let (cwd, r2) := dec_comps r1 in
+      match r2 with
+      | na :: r3 =>
+          let (args, r4) := dec_paths (Z.to_nat na) r3 in
+          match r4 with
+          | nf :: r5 =>
+              let (fs, _) := dec_wfiles (Z.to_nat nf) r5 in
+              Some (mkMP (if zb hd then Some dv else None) (zb pr) (zb im), mkWorld bdir fs, cwd,
+                    mkCliC args (zb u) (dec_text stg sv) (dec_text mtg mv) (if zb hc then Some cv else None))
+          | [] => None
+          end
+      | [] => None
+      end
+  | _ => None
+  end.
+
+(* CMD main_concrete = 7 : has_default default pass_resolved imx93  u65 sys(text) mem(text) has_acs acs
+                           bundled_dir(comps) cwd(comps) nargs {path} nfiles {comps ini}  -> 1 arch | 0 err *)
+Definition run_main_concrete (a : list Z) : list Z :=
+  match dec_main_c a with
+  | Some (pm, w, cwd, cl) => enc_res_arch (c_u65 cl) (main_concrete pm w cwd cl)
+  | None => [-1]
+  end.
+
+(* CMD spec_main_concrete = 8 : same input -> 1 arch | 0 0 *)
+Definition run_spec_main_concrete (a : list Z) : list Z :=
+  match dec_main_c a with
+  | Some (_, w, cwd, cl) => enc_opt_arch (c_u65 cl) (spec_main_c w cwd cl)
+  | None => [-1]
+  end.
+
+(* CMD resolve_path = 9 : bundled_dir(comps) cwd(comps) path -> 1 comps | 0 0 *)
+Definition run_resolve_path (a : list Z) : list Z :=
+  let (bdir, r1) := dec_comps a in
+  let (cwd, r2) := dec_comps r1 in
+  match r2 with
+  | ab :: r3 =>
+      let (cs, _) := dec_comps r3 in
+      match resolve_path bdir cwd (mkPath (zb ab) cs) with
+      | Some f => 1 :: enc_comps f
+      | None => [0; 0]
+      end
+  | [] => [-1]
+  end.
+
 Definition run (cmd : Z) (a : list Z) : list Z :=
   if cmd =? 1 then run_read_config a
   else if cmd =? 2 then run_get_vela_config a
@@ -167,4 +254,7 @@ Definition run (cmd : Z) (a : list Z) : list Z :=
   else if cmd =? 4 then run_main a
   else if cmd =? 5 then run_spec_main a
   else if cmd =? 6 then run_parse_paths a
+  else if cmd =? 7 then run_main_concrete a
+  else if cmd =? 8 then run_spec_main_concrete a
+  else if cmd =? 9 then run_resolve_path a
   else [-1].
